@@ -66,3 +66,42 @@ Lemma hi8_lt v : (v / 256) mod 256 < 256. Proof. lia. Qed.
 Lemma lo8_lt v : v mod 256 < 256. Proof. lia. Qed.
 
 Ltac ok_list := unfold bytes_ok; repeat (apply Forall_cons || apply Forall_nil); try assumption; try lia.
+
+(* ---------------------------------------------------------------- *)
+(* symbolic evaluation tactics *)
+Ltac posnat := repeat match goal with |- context [Pos.to_nat ?p] =>
+  let v := eval vm_compute in (Pos.to_nat p) in change (Pos.to_nat p) with v end.
+Ltac run := cbn; repeat (progress posnat; cbn).
+Ltac eqbs := repeat rewrite N.eqb_refl; cbn [andb]; try reflexivity.
+Ltac w16_ok := unfold w16, be16, hi8, lo8; cbn [nth]; rewrite be16_hi_lo by assumption; apply N.eqb_refl.
+Ltac oks := unfold hi8, lo8, u8; ok_list.
+(* the checksum bytes are atoms while the decoder is evaluated *)
+Ltac abs_cks := repeat match goal with
+  | |- context [u8 (N.shiftr (checksum ?x) 8)] => let k := fresh "ck" in set (k := u8 (N.shiftr (checksum x) 8))
+  | |- context [u8 (checksum ?x)] => let k := fresh "ck" in set (k := u8 (checksum x))
+  | |- context [u8 (N.shiftr (ip4_calc_checksum ?x) 8)] => let k := fresh "ck" in set (k := u8 (N.shiftr (ip4_calc_checksum x) 8))
+  | |- context [u8 (ip4_calc_checksum ?x)] => let k := fresh "ck" in set (k := u8 (ip4_calc_checksum x))
+  end.
+Ltac unabs := repeat match goal with k := _ |- _ => subst k end.
+Ltac ip4_cks := unfold ip4_hdr_cks_ok; run; unabs; apply verifiesb_true;
+  match goal with |- verifies ?L =>
+    let p := eval cbn [set_nth] in (set_nth 10 0 (set_nth 11 0 L)) in
+    change (verifies (ip4_store_checksum p)) end;
+  apply ip4_header_verifies; [oks | reflexivity].
+Ltac icmp4_cks := unfold icmp4_cks_ok; run; unabs; apply verifiesb_true;
+  match goal with |- verifies ?L =>
+    let p := eval cbn [set_nth] in (set_nth 2 0 (set_nth 3 0 L)) in
+    change (verifies (icmp_set_checksum p (checksum p))) end;
+  apply icmp4_verifies; [oks | cbn [length]; lia | cbn [length]; lia | reflexivity | reflexivity].
+Ltac icmp6_cks := unfold icmp6_cks_ok; run; unabs; apply verifiesb_true;
+  match goal with |- verifies ?L =>
+    let S := eval cbn [firstn] in (firstn 16 L) in
+    let D := eval cbn [firstn skipn] in (firstn 16 (skipn 16 L)) in
+    let M := eval cbn [skipn] in (skipn 40 L) in
+    let P := eval cbn [set_nth] in (set_nth 2 0 (set_nth 3 0 M)) in
+    change (verifies (icmp6_pseudo S D (N.of_nat (length P)) ++
+                      icmp_set_checksum P (checksum (icmp6_pseudo S D (N.of_nat (length P)) ++ P))))
+  end;
+  apply icmp6_verifies;
+  [oks | oks | oks | reflexivity | reflexivity | cbn [length]; lia | cbn [length]; lia | reflexivity | reflexivity].
+
